@@ -647,6 +647,23 @@ func (p *nriPlugin) RemoveContainer(ctx context.Context, pod *api.PodSandbox, co
 	b := metrics.Block()
 	defer b.Done()
 
+	// A container that was created but never started is removed without a
+	// preceding StopContainer event: release what it still holds.
+	if c, ok := m.cache.LookupContainer(container.Id); ok {
+		switch c.GetState() {
+		case cache.ContainerStateCreated, cache.ContainerStateRunning:
+			p.unmapContainer(c)
+			if err := m.policy.ReleaseResources(c); err != nil {
+				nri.Warn("%s: failed to release resources of %s: %v", event, c.PrettyName(), err)
+			}
+			c.UpdateState(cache.ContainerStateExited)
+			m.updateTopologyZones()
+			if err := p.pushPendingUpdates(); err != nil {
+				nri.Warn("%s: failed to update containers affected by the release: %v", event, err)
+			}
+		}
+	}
+
 	m.cache.DeleteContainer(container.Id)
 	return nil
 }
@@ -656,6 +673,12 @@ func (p *nriPlugin) updateContainers() (retErr error) {
 
 	b := metrics.Block()
 	defer b.Done()
+
+	return p.pushPendingUpdates()
+}
+
+func (p *nriPlugin) pushPendingUpdates() (retErr error) {
+	// Notes: must be called with p.resmgr lock held and metrics collection blocked.
 
 	updates := p.getPendingUpdates(nil)
 
